@@ -48,6 +48,13 @@ struct Stats {
     msgs: u64,
     serial_cases: u64,
     storage_cases: u64,
+    // scale classes: garbage runs longer than the maximal message (> 65551 bytes), by position and framing
+    long_leading: [u64; 2],
+    long_between: [u64; 2],
+    long_before_last: [u64; 2],
+    long_trailing: [u64; 2],
+    long_by_reader: [u64; 4],
+    long_partial_marker: u64,
 }
 
 fn run_case(t: &mut Trace, st: &mut Stats, case: u64, stream: &Stream, start: u32, reader: u64, origin: &str) {
@@ -79,6 +86,30 @@ fn run_case(t: &mut Trace, st: &mut Stats, case: u64, stream: &Stream, start: u3
     }
     if stream.serial { st.serial_cases += 1 } else { st.storage_cases += 1 }
     st.cases += 1;
+    {
+        let f = stream.serial as usize;
+        let long = |g: usize| g >= DLT_MAX_STORAGE_MSG_SIZE;
+        let mut any = false;
+        if n > 1 && long(lay.garb[0]) {
+            st.long_leading[f] += 1;
+            any = true;
+        }
+        if n > 3 && lay.garb[1..n - 2].iter().any(|g| long(*g)) {
+            st.long_between[f] += 1;
+            any = true;
+        }
+        if n > 2 && long(lay.garb[n - 2]) {
+            st.long_before_last[f] += 1;
+            any = true;
+        }
+        if long(lay.garb[n - 1]) {
+            st.long_trailing[f] += 1;
+            any = true;
+        }
+        if any {
+            st.long_by_reader[reader as usize % 4] += 1;
+        }
+    }
     let rname = ["slice", "cursor", "lowmark-512k", "lowmark-min"][reader as usize % 4];
     t.ev(json!({"ev":"reset","case":case,"hdr":{"framing": if stream.serial {"serial"} else {"storage"},"start":start,"total":lay.bytes.len(),
         "msgs":msgs,"garb":lay.garb,"origin":origin,"reader":rname,"spurious_markers":spurious_markers(stream)}}));
@@ -104,6 +135,35 @@ fn garbage_for_class(rng: &mut Rng, class: u64) -> Vec<u8> {
     rand_garbage(rng, n)
 }
 
+fn small_msg(rng: &mut Rng, serial: bool) -> Seg {
+    let flags = rng.below(32) as u8;
+    let plen = match rng.below(4) { 0 => 0, 1 => 1, _ => rng.range(2, 60) as usize };
+    let p = rng.bytes(plen);
+    Seg::M(rand_msg(rng, serial, flags, p))
+}
+
+/// scale-class stream: 4 small messages of one framing with ONE garbage run of `len` bytes (longer than any message) at
+/// position pos: 0 leading, 1 between (after the first message), 2 in front of the last message, 3 trailing; short garbage
+/// runs may sit in the other gaps
+fn scale_stream(rng: &mut Rng, serial: bool, pos: u64, len: usize, style: u64) -> Stream {
+    let mut st = Stream { serial, segs: vec![] };
+    let nm = 4;
+    for gap in 0..=nm {
+        let long_here = match pos { 0 => gap == 0, 1 => gap == 1, 2 => gap == nm - 1, _ => gap == nm };
+        if long_here {
+            st.segs.push(Seg::G(long_garbage(rng, len, style)));
+        } else if rng.chance(1, 3) {
+            let c = rng.range(1, 3);
+            st.segs.push(Seg::G(garbage_for_class(rng, c)));
+        }
+        if gap < nm {
+            st.segs.push(small_msg(rng, serial));
+        }
+    }
+    sanitize(&mut st, rng);
+    st
+}
+
 fn random_stream(rng: &mut Rng, max_msgs: u64) -> Stream {
     let serial = rng.chance(1, 2);
     let mut st = Stream { serial, segs: vec![] };
@@ -111,8 +171,15 @@ fn random_stream(rng: &mut Rng, max_msgs: u64) -> Stream {
     let gp = *rng.pick(&[0u64, 1, 2, 5]); // x/6 chance of garbage at a gap
     let gap = |st: &mut Stream, rng: &mut Rng| {
         if rng.below(6) < gp {
-            let c = rng.range(1, 4);
-            st.segs.push(Seg::G(garbage_for_class(rng, c)));
+            if rng.chance(1, 50) {
+                // a run longer than any message, at or near the byte counts where size-dependent state could flip
+                let n = match rng.below(3) { 0 => *rng.pick(&SCALE_LENGTHS), 1 => *rng.pick(&SCALE_BOUNDARIES) + rng.below(40) as usize, _ => rng.range(65552, 200000) as usize };
+                let style = rng.below(4);
+                st.segs.push(Seg::G(long_garbage(rng, n, style)));
+            } else {
+                let c = rng.range(1, 4);
+                st.segs.push(Seg::G(garbage_for_class(rng, c)));
+            }
         }
     };
     for _ in 0..nm {
@@ -138,7 +205,8 @@ fn main() {
     let a = Args::from_env();
     let mut t = Trace::create(&a.str("--out", "trace.ndjson"));
     let mut st = Stats { cases: 0, shapes: [0; 64], garb_before: 0, garb_between: 0, garb_after: 0, trailing_short: 0, max_payload: 0, empty_payload: 0, msgs: 0,
-        serial_cases: 0, storage_cases: 0 };
+        serial_cases: 0, storage_cases: 0, long_leading: [0; 2], long_between: [0; 2], long_before_last: [0; 2], long_trailing: [0; 2], long_by_reader: [0; 4],
+        long_partial_marker: 0 };
     let seed = a.num("--seed", 1);
     let mut rng = Rng::new(seed ^ 0xC01);
     let mut case = a.num("--first-case", 0);
@@ -156,9 +224,16 @@ fn main() {
             let max_class = a.num("--max-l", 2);
             for v in 0..variants {
                 let mut s = Stream { serial, segs: vec![] };
+                // the token model has no garbage class longer than a message: a fraction of the shapes gets its first garbage run
+                // concretised into a scale class (> 65551 bytes)
+                let mut stretch = v == 1 && si % 29 == 0;
                 for (j, sg) in scn["segs"].as_array().unwrap().iter().enumerate() {
                     let n = sg["n"].as_u64().unwrap();
-                    if sg["k"] == "g" {
+                    if sg["k"] == "g" && stretch {
+                        stretch = false;
+                        let len = SCALE_LENGTHS[(si / 29) % SCALE_LENGTHS.len()];
+                        s.segs.push(Seg::G(long_garbage(&mut rng, len, si as u64 / 29)));
+                    } else if sg["k"] == "g" {
                         s.segs.push(Seg::G(garbage_for_class(&mut rng, n)));
                     } else {
                         // every combination of WEID/WSID/WTMS/UEH x MSBF, round robin over scenarios, positions and variants
@@ -170,6 +245,32 @@ fn main() {
                 sanitize(&mut s, &mut rng);
                 run_case(&mut t, &mut st, case, &s, start, case + v, "tlc");
                 case += 1;
+            }
+        }
+    }
+    // scale classes (deterministic grid): framing x position of the long run x length x garbage style x front-end
+    let scale = a.num("--scale", 0);
+    if scale > 0 {
+        let positions: &[u64] = &[0, 1, 2, 3];
+        for serial in [false, true] {
+            for &pos in positions {
+                for (li, &len) in SCALE_LENGTHS.iter().enumerate() {
+                    if pos == 3 && len != 65552 && scale < 2 {
+                        continue; // trailing runs: one length in the quick tier
+                    }
+                    for style in 0..(if scale >= 2 { 4 } else { 2 }) {
+                        // quick: random bytes and partial markers at the boundaries; thorough: also the two cyclic patterns
+                        for reader in 0..4u64 {
+                            let s = scale_stream(&mut rng, serial, pos, len, style);
+                            if style % 4 != 0 {
+                                st.long_partial_marker += 1;
+                            }
+                            let start = if (li + reader as usize) % 2 == 0 { 0 } else { rng.below(1 << 30) as u32 };
+                            run_case(&mut t, &mut st, case, &s, start, reader, "scale");
+                            case += 1;
+                        }
+                    }
+                }
             }
         }
     }
@@ -215,5 +316,9 @@ fn main() {
     println!("{}", json!({"cases": case, "lines": t.lines, "scenarios": n_scn, "model_predicted_kf": predicted_kf, "msgs": st.msgs,
         "shapes_storage": shapes_storage, "shapes_serial": shapes_serial, "garbage_before": st.garb_before, "garbage_between": st.garb_between,
         "garbage_after": st.garb_after, "trailing_short_run": st.trailing_short, "max_payload_msgs": st.max_payload, "empty_payload_msgs": st.empty_payload,
-        "serial_cases": st.serial_cases, "storage_cases": st.storage_cases, "files": files}));
+        "serial_cases": st.serial_cases, "storage_cases": st.storage_cases, "files": files,
+        "long_garbage": {"leading_storage": st.long_leading[0], "leading_serial": st.long_leading[1], "between_storage": st.long_between[0],
+            "between_serial": st.long_between[1], "before_last_storage": st.long_before_last[0], "before_last_serial": st.long_before_last[1],
+            "trailing_storage": st.long_trailing[0], "trailing_serial": st.long_trailing[1], "via_slice": st.long_by_reader[0], "via_cursor": st.long_by_reader[1],
+            "via_lowmark_512k": st.long_by_reader[2], "via_lowmark_min": st.long_by_reader[3], "with_partial_markers": st.long_partial_marker}}));
 }
